@@ -2,7 +2,7 @@
 """
 Take over one adversarial change produced in a scratch worktree and confirm it independently.
 
-usage: intake_seeded.py <worktree> <n> [--name <id>] [--no-check]
+usage: intake_seeded.py <worktree> <n> [--name <id>] [--no-check] [--reuse]
 
 Copies <worktree>/ADV/<n>/{patch.diff,demo.py,meta.json} to /verif/seeded/<id>/ and, on scratch copies of
 /repo's current working tree under /dev/shm (removed afterwards):
@@ -30,7 +30,11 @@ def sh(cmd, **kw):
 
 
 def copy_repo(dst):
-    subprocess.check_call(['rsync', '-a', '--exclude', '.git', '--exclude', '__pycache__', '/repo/', dst + '/'])
+    # 24 = files vanished while copying (a test run in /repo cleaning up its output): harmless
+    rc = subprocess.call(['rsync', '-a', '--exclude', '.git', '--exclude', '__pycache__', '--exclude', 'tests/unit/output',
+                          '/repo/', dst + '/'])
+    if rc not in (0, 24):
+        raise RuntimeError('rsync failed: %d' % rc)
 
 
 def run_tests(repo):
@@ -56,13 +60,22 @@ def run_demo(demo, wt, repo):
 def main():
     wt, n = sys.argv[1].rstrip('/'), sys.argv[2]
     src = os.path.join(wt, 'ADV', n)
-    meta = json.load(open(os.path.join(src, 'meta.json')))
-    prop = meta['property']
-    name = sys.argv[sys.argv.index('--name') + 1] if '--name' in sys.argv else '%s-adv%s-%s' % (prop, n, os.path.basename(wt)[-3:])
-    dst = os.path.join(VERIF, 'seeded', name)
-    os.makedirs(dst, exist_ok=True)
-    for f in ('patch.diff', 'demo.py'):
-        shutil.copy(os.path.join(src, f), os.path.join(dst, f))
+    if '--reuse' in sys.argv:
+        # the worktree is gone: confirm again from what was copied to /verif/seeded/<name> earlier
+        name = sys.argv[sys.argv.index('--name') + 1]
+        dst = os.path.join(VERIF, 'seeded', name)
+        meta = json.load(open(os.path.join(dst, 'meta.json')))
+        prop = meta['property']
+    else:
+        meta = json.load(open(os.path.join(src, 'meta.json')))
+        prop = meta['property']
+        name = sys.argv[sys.argv.index('--name') + 1] if '--name' in sys.argv else '%s-adv%s-%s' % (prop, n, os.path.basename(wt)[-3:])
+        dst = os.path.join(VERIF, 'seeded', name)
+        os.makedirs(dst, exist_ok=True)
+        for f in ('patch.diff', 'demo.py'):
+            shutil.copy(os.path.join(src, f), os.path.join(dst, f))
+        meta['worktree'] = wt
+        json.dump(meta, open(os.path.join(dst, 'meta.json'), 'w'), indent=1)
     baseline = set(json.load(open('/root/.vp/BASELINE.json'))['stable_pass'])
     conf = {}
     clean = tempfile.mkdtemp(prefix='pcbseed-clean.', dir='/dev/shm')
